@@ -14,7 +14,9 @@ Exhaustive part: list sizes 0..3 (quick) / 0..4 (thorough) x every slice with
 start, stop, step in {None, -6..6} for get / del / set (right-hand side of 0..3 fresh
 members); every index -6..6 for [] get/set/del, insert, pop; all other list methods;
 all set methods and operators with set / frozenset / list-with-duplicate / iterator /
-self / other-instrumented-set arguments over all subsets; all dict methods.  Random
+self / other-instrumented-set arguments over all subsets; all dict methods, including
+``pop`` / ``setdefault`` whose default is itself a member (the very object stored under
+the key, or one stored under another key).  Random
 part: seeded operation sequences on one collection, judged after every step.
 
 Guards (behaviour that is by design or unspecified, so not demanded):
